@@ -184,7 +184,7 @@ func cmdCheck(args []string) int {
 		}
 		for i, w := range rr.Witnesses {
 			id := fmt.Sprintf("%s#w%d", rr.Root.Key(), i)
-			tapes = append(tapes, &Tape{ID: id, Harness: rr.Root.Harness, Params: rr.Root.Params, Nondet: w.Nondet, Chooses: w.Chooses, Expect: "ok", obs: w.Observes})
+			tapes = append(tapes, &Tape{ID: id, Harness: rr.Root.Harness, Params: rr.Root.Params, Nondet: w.Nondet, Chooses: w.Chooses, Expect: "ok", obs: w.Observes, Sched: hasSched(w.Decs)})
 			tapeRoot[id] = rr
 			if len(samples) < 6 {
 				samples = append(samples, sampleT{Root: rr.Root.Key(), Kind: "witness of a completed path (all obligations on it discharged)", Nondet: trunc(w.Nondet, 48), Chooses: w.Chooses, Decs: decString(w.Decs)})
@@ -193,7 +193,7 @@ func cmdCheck(args []string) int {
 	}
 	for i, c := range cexs {
 		id := fmt.Sprintf("%s#cex%d", c.rr.Root.Key(), i)
-		tapes = append(tapes, &Tape{ID: id, Harness: c.rr.Root.Harness, Params: c.rr.Root.Params, Nondet: c.f.Nondet, Chooses: c.f.Chooses, Expect: "fail", failure: c.f})
+		tapes = append(tapes, &Tape{ID: id, Harness: c.rr.Root.Harness, Params: c.rr.Root.Params, Nondet: c.f.Nondet, Chooses: c.f.Chooses, Expect: "fail", failure: c.f, Sched: hasSched(c.f.Decs)})
 		tapeRoot[id] = c.rr
 	}
 
@@ -425,3 +425,12 @@ func paramStr(p []int) string {
 }
 
 func sortStrings(s []string) []string { sort.Strings(s); return s }
+
+func hasSched(ds []Dec) bool {
+	for _, d := range ds {
+		if d.K == 's' {
+			return true
+		}
+	}
+	return false
+}
